@@ -325,9 +325,10 @@ namespace occa {
       const char *cStart = c;
       lex::skipTo(c, objectKeyEndChars);
       key = std::string(cStart, c - cStart);
+      // Only a quoted key can be empty: {"": 1} is what dump() writes for it
+      OCCA_ERROR("Key cannot be of size 0",
+                 key.size());
     }
-    OCCA_ERROR("Key cannot be of size 0",
-               key.size());
 
     lex::skipWhitespace(c);
     OCCA_ERROR("Key must be followed by ':'",
